@@ -1015,7 +1015,7 @@ class Reaction(Object):
         -------
         Reaction - original reaction (self) with the added properties.
         """
-        self.add_metabolites(other._metabolites, combine=True)
+        self.add_metabolites(other._metabolites.copy(), combine=True)
         rule1 = self.gene_reaction_rule.strip()
         rule2 = other.gene_reaction_rule.strip()
         if rule1 != "" and rule2 != "":
@@ -1070,7 +1070,7 @@ class Reaction(Object):
         -------
         Reaction - self with the subtracted metabolites.
         """
-        self.subtract_metabolites(other._metabolites, combine=True)
+        self.subtract_metabolites(other._metabolites.copy(), combine=True)
         return self
 
     def __imul__(self, coefficient: float) -> "Reaction":
